@@ -76,6 +76,10 @@ def malCodec (env : Env) (op : String) (ty s bs : Sexp) (tag : String) (impl : S
           | .list (.atom "err" :: _) => "err"
           | _ => "?"
         if modelCls == "fuel" then .ok s!"mal/{op}/{tag}/model-out-of-budget"
+        else if tag == "wrapper-varint" && op == "mal-read" && modelCls == "err" && cls == "ok" then
+          -- the input is one varint followed by a well-formed tail: the only thing the model rejects is that varint (it overflows
+          -- 64 bits, has more than ten bytes, or is outside the range of the Go field) - C17 / C05 require an error
+          .oracle s!"a malformed or out-of-range varint in the first field was accepted ({impl}); everything after it is well formed"
         else if modelCls == implCls then .ok s!"mal/{op}/{tag}/{cls}"
         else .diff s!"model {modelCls}, implementation {implCls}"
   | _, _, _ => .bad "parse"
